@@ -819,15 +819,7 @@ func (a *aliasAnalysis) checkWriteThrough(p *packages.Package, base ast.Expr, wh
 // alias there is a package-level []byte whose (never re-assigned) initialiser has a statically known length other than K:
 // on that path x is not the alias.  (css.minifyColor: `data = blackBytes` (4 bytes), later `else if len(data) == 7 { data[2] = … }`.)
 func (a *aliasAnalysis) infeasibleByLength(p *packages.Package, base ast.Expr, org string) bool {
-	for {
-		if s, ok := unparen(base).(*ast.SliceExpr); ok {
-			return false // a re-slice has another length
-		} else {
-			_ = s
-			break
-		}
-	}
-	id, ok := unparen(base).(*ast.Ident)
+	id, ok := unparen(base).(*ast.Ident) // a re-slice has another length: only the variable itself
 	if !ok || org == "" || strings.Contains(org, "…") {
 		return false
 	}
